@@ -36,6 +36,7 @@ func TestReplay(t *testing.T) {
 		t.Fatalf("HARNESS: no replayer registered for %q", rf.Check)
 	}
 	if err := f(rf.Case); err != nil {
+		inconclusiveIfHarness(rf.Check, err)
 		fmt.Printf("REPLAY-FAIL property=%s check=%s\n", rf.Property, rf.Check)
 		t.Fatalf("still violated: %v", err)
 	}
